@@ -80,6 +80,9 @@ func (it *Interp) hash256(name string, native func([]byte) []byte, bs []*smt.Ter
 		it.addPC(c.And(c.Le(c.IntI(1), h), c.Lt(h, it.secpN())))
 		it.markReduced(h)
 	}
+	if hashAppHook != nil {
+		hashAppHook(it, name, bs, h) // models_hashcr.go (opt-in collision-freeness)
+	}
 	return it.intToBytes(h, 32)
 }
 
